@@ -171,11 +171,11 @@ def run(ctx, report):
     _own_run(ctx, report)
     from common import Only
     from rules import c01, c02, c05, c09, c10
-    c02.run(ctx, Only(report, {"KEYS": "KEYS"}))
+    c02._own_run(ctx, Only(report, {"KEYS": "KEYS"}))
     # every record returned by an update verifies (else its encoding cannot be decoded again), under every key type's public-key reader
-    c05.run(ctx, Only(report, {"TS": "TS", "WRAP": "WRAP", "SIGN": "SIGN"}))
+    c05._own_run(ctx, Only(report, {"TS": "TS", "WRAP": "WRAP", "SIGN": "SIGN"}))
     c01.pubkey_rule(ctx, Only(report, {"PUBKEY": "PUBKEY"}))
     # what build() returns must be decodable again (size), and every committed record carries the node id an independent parse computes
-    c09.run(ctx, Only(report, {"BUILD": "SIZE-BUILD", "SIZED": "SIZED"}))
-    c10.run(ctx, Only(report, {"IDD": "IDD", "UNCOMP": "UNCOMP", "FROM": "FROM", "DIGEST": "DIGEST"}))
+    c09._own_run(ctx, Only(report, {"BUILD": "SIZE-BUILD", "SIZED": "SIZED"}))
+    c10._own_run(ctx, Only(report, {"IDD": "IDD", "UNCOMP": "UNCOMP", "FROM": "FROM", "DIGEST": "DIGEST"}))
 
